@@ -3,6 +3,7 @@
 //! Serves C14 (integers), C15 (to_lean_string / floats), C16 (UTF-8/UTF-16 decoding), C19 (serde/arbitrary).
 use lean_string::{LeanString, ToLeanString, ToLeanStringError};
 
+#[cfg(not(miri))]
 #[global_allocator]
 static GLOBAL: lsverif::tlalloc::TlAlloc = lsverif::tlalloc::TlAlloc;
 use serde_json::{Value, json};
@@ -10,7 +11,8 @@ use std::collections::BTreeMap;
 use std::fmt::{self, Display, Write as _};
 use std::num::NonZero;
 use std::sync::Mutex;
-use std::sync::atomic::{AtomicU64, Ordering};
+use lsverif::Counter64 as AtomicU64;
+use std::sync::atomic::Ordering;
 use std::time::Instant;
 
 /// text of a LeanString for messages; never trusts it to be valid UTF-8
@@ -144,6 +146,11 @@ macro_rules! check_int {
 
 /// the structured 64/128-bit families as i128 candidates (filtered per type by try_from)
 fn families(quick: bool, max_digits: u32, window: bool) -> Vec<i128> {
+    families_sized(quick, max_digits, window, false)
+}
+
+/// `reduced`: fewer boundary widths and remainders in F-split (Miri-hosted runs)
+fn families_sized(quick: bool, max_digits: u32, window: bool, reduced: bool) -> Vec<i128> {
     let mut v: Vec<i128> = Vec::new();
     // F-pow: 10^k + d, 2^k + d, both signs
     let mut p: i128 = 1;
@@ -166,16 +173,16 @@ fn families(quick: bool, max_digits: u32, window: bool) -> Vec<i128> {
     // narrower type)
     {
         let mut edges: Vec<i128> = Vec::new();
-        for w in [7u32, 8, 15, 16, 24, 31, 32, 53, 63, 64] {
-            for d in -2i128..=2 {
+        for w in if reduced { vec![8u32, 16, 31, 32, 63, 64] } else { vec![7u32, 8, 15, 16, 24, 31, 32, 53, 63, 64] } {
+            for d in if reduced { -1i128..=1 } else { -2i128..=2 } {
                 edges.push((1i128 << w) + d);
             }
         }
         let mut pk: i128 = 10;
         for _k in 1..=22 {
-            let rems = [0, 1, pk / 2, pk - 1, pk / 10, pk / 10 * 9 + 7];
+            let rems = if reduced { vec![0, pk - 1, pk / 10 * 9 + 7] } else { vec![0, 1, pk / 2, pk - 1, pk / 10, pk / 10 * 9 + 7] };
             for &a in &edges {
-                for b in rems {
+                for &b in &rems {
                     if let Some(x) = a.checked_mul(pk).and_then(|x| x.checked_add(b)) {
                         v.push(x);
                         v.push(-x);
@@ -184,7 +191,7 @@ fn families(quick: bool, max_digits: u32, window: bool) -> Vec<i128> {
             }
             for &b in &edges {
                 if b < pk {
-                    for a in [1i128, 9, 42, 99999] {
+                    for a in if reduced { vec![1i128, 99999] } else { vec![1i128, 9, 42, 99999] } {
                         if let Some(x) = a.checked_mul(pk).and_then(|x| x.checked_add(b)) {
                             v.push(x);
                             v.push(-x);
@@ -386,6 +393,81 @@ fn c14(cx: &Ctx, quick: bool) {
     cx.sample(json!({"type": "i64", "value": "-99999999999", "lean": (-99999999999i64).to_lean_string().as_str()}));
     cx.sample(json!({"type": "u128", "value": u128::MAX.to_string(), "lean": u128::MAX.to_lean_string().as_str()}));
     cx.sample(json!({"type": "NonZero<i8>", "value": "-128", "lean": NonZero::<i8>::new(-128).unwrap().to_lean_string().as_str()}));
+}
+
+/// C14 hosted by Miri for a target whose integer paths differ (32-bit targets format the
+/// <= 32-bit types with u32 arithmetic and keep at most 8 bytes inline): every 8- and 16-bit value
+/// and the F-pow / F-split families and type extremes in every integer type, split over parts.
+fn c14_hosted(cx: &Ctx, k: u64, n: u64) {
+    let mut c = 0u64;
+    let mut idx = 0u64;
+    macro_rules! mine {
+        () => {{
+            idx += 1;
+            (idx - 1) % n == k
+        }};
+    }
+    for v in u8::MIN..=u8::MAX {
+        if mine!() {
+            check_int!(cx, u8, v, c);
+            check_int!(cx, i8, v as i8, c);
+        }
+    }
+    for v in (u16::MIN..=u16::MAX).filter(|v| v % 13 == 0 || v % 1000 >= 997 || v % 1000 <= 2 || *v >= u16::MAX - 3 || (*v as i16).unsigned_abs() >= i16::MAX as u16 - 3) {
+        if mine!() {
+            check_int!(cx, u16, v, c);
+            check_int!(cx, i16, v as i16, c);
+        }
+    }
+    let small = c;
+    let fam = families_sized(true, 39, false, true);
+    for &x in &fam {
+        if !mine!() {
+            continue;
+        }
+        if let Ok(v) = i64::try_from(x) {
+            check_int!(cx, i64, v, c);
+        }
+        if let Ok(v) = isize::try_from(x) {
+            check_int!(cx, isize, v, c);
+        }
+        if let Ok(v) = u64::try_from(x) {
+            check_int!(cx, u64, v, c);
+        }
+        if let Ok(v) = usize::try_from(x) {
+            check_int!(cx, usize, v, c);
+        }
+        if let Ok(v) = u128::try_from(x) {
+            check_int!(cx, u128, v, c);
+            check_int!(cx, u128, u128::MAX - v, c);
+        }
+        check_int!(cx, i128, x, c);
+        if let Ok(v) = i32::try_from(x) {
+            check_int!(cx, i32, v, c);
+        }
+        if let Ok(v) = u32::try_from(x) {
+            check_int!(cx, u32, v, c);
+        }
+    }
+    if k == 0 {
+        for d in 0..=3u128 {
+            check_int!(cx, u128, u128::MAX - d, c);
+            check_int!(cx, u64, u64::MAX - d as u64, c);
+            check_int!(cx, i64, i64::MAX - d as i64, c);
+            check_int!(cx, i64, i64::MIN + d as i64, c);
+            check_int!(cx, i128, i128::MAX - d as i128, c);
+            check_int!(cx, i128, i128::MIN + d as i128, c);
+            check_int!(cx, usize, usize::MAX - d as usize, c);
+            check_int!(cx, isize, isize::MIN + d as isize, c);
+            check_int!(cx, isize, isize::MAX - d as isize, c);
+            check_int!(cx, u32, u32::MAX - d as u32, c);
+            check_int!(cx, i32, i32::MIN + d as i32, c);
+            check_int!(cx, i32, i32::MAX - d as i32, c);
+        }
+    }
+    cx.domain(&format!("hosted (target: {} bit, {} endian), part {k} of {n}: every u8/i8 value, every 13th u16/i16 value plus those next to multiples of 1000 and the extremes; F-pow + reduced F-split + type extremes in every integer type that can hold the value (+NonZero)", usize::BITS, if cfg!(target_endian = "big") { "big" } else { "little" }), c, true, &format!("{} candidate values in the families", fam.len()));
+    cx.class("8/16-bit".into(), small);
+    cx.class("families".into(), c - small);
 }
 
 // ---------------------------------------------------------------------------------------
@@ -1523,6 +1605,12 @@ fn main() {
     let quick = tier == "quick";
     std::panic::set_hook(Box::new(|_| {}));
     let (rule, assumptions): (&str, Vec<&str>) = match prop.as_str() {
+        "C14" if arg(&args, "--hosted").is_some() => {
+            let part = arg(&args, "--hosted").unwrap();
+            let (k, n) = part.split_once('/').map(|(a, b)| (a.parse().unwrap_or(0), b.parse().unwrap_or(1))).unwrap_or((0, 1));
+            c14_hosted(&cx, k, n);
+            ("hosted by Miri: the listed integer families on a target whose integer formatting paths differ from the native one; oracle: to_lean_string() bytes equal what core::fmt::Display writes into a stack buffer", vec![])
+        }
         "C14" => {
             c14(&cx, quick);
             ("complete enumeration of the listed integer domains; oracle: to_lean_string() bytes equal what core::fmt::Display writes into a stack buffer; distinct = distinct (family, sign, digit count) classes", vec!["64/128-bit values outside the enumerated families are not covered; the property's 'dense random sampling' clause is replaced by the exhaustive F-window family (sampling is another technique family)"])
